@@ -204,8 +204,12 @@ pub fn run_client(client_bin: &str, v: Proto, key: Option<String>, nreq: usize, 
     let mut stdout = String::new();
     let mut stderr = String::new();
     // (the dump view prints much: drain the pipes before waiting)
+    // both pipes are drained at the same time: a client that fills one while the harness waits for the end of the other
+    // would block for ever (the text dump of a long run is larger than a pipe buffer)
+    let err_pipe = child.stderr.take();
+    let err_thread = std::thread::spawn(move || { let mut t = String::new(); if let Some(mut e) = err_pipe { let _ = e.read_to_string(&mut t); } t });
     if let Some(mut o) = child.stdout.take() { let _ = o.read_to_string(&mut stdout); }
-    if let Some(mut e) = child.stderr.take() { let _ = e.read_to_string(&mut stderr); }
+    stderr.push_str(&err_thread.join().unwrap_or_default());
     let status = child.wait().expect("wait client");
     let files_ok = if out_mode == 2 && requests.len() == nreq && status.code() == Some(0) {
         // a run that ended well wrote every request it sent and every response it processed, in order, nothing else
@@ -819,8 +823,12 @@ fn run_client_relay(client_bin: &str, v: Proto, key: Option<String>, nreq: usize
     // a large run prints much: drain the pipes while waiting
     let mut stdout = String::new();
     let mut stderr = String::new();
+    // both pipes are drained at the same time: a client that fills one while the harness waits for the end of the other
+    // would block for ever (the text dump of a long run is larger than a pipe buffer)
+    let err_pipe = child.stderr.take();
+    let err_thread = std::thread::spawn(move || { let mut t = String::new(); if let Some(mut e) = err_pipe { let _ = e.read_to_string(&mut t); } t });
     if let Some(mut o) = child.stdout.take() { let _ = o.read_to_string(&mut stdout); }
-    if let Some(mut e) = child.stderr.take() { let _ = e.read_to_string(&mut stderr); }
+    stderr.push_str(&err_thread.join().unwrap_or_default());
     let status = child.wait().expect("wait client");
     ClientRun { exit: status.code().unwrap_or(-1), stdout, stderr, requests, out_mode: 0, files_ok: None }
 }
